@@ -350,7 +350,7 @@ func (s *scope) dispose() error {
 	verifPoint("scope.dispose.drained")
 
 	for i := len(disposables) - 1; i >= 0; i-- {
-		if err := disposables[i].Close(); err != nil {
+		if err := closeDisposable(disposables[i]); err != nil {
 			errs = append(errs, fmt.Errorf("failed to dispose scoped instance: %w", err))
 		}
 	}
@@ -452,7 +452,7 @@ func (s *scope) setInstance(descriptor *Descriptor, key instanceKey, instance an
 				// Close has already disposed the tracked instances; an instance
 				// added now would never be closed, so dispose it here
 				s.disposablesMu.Unlock()
-				_ = d.Close()
+				_ = closeDisposable(d)
 				return ErrScopeDisposed
 			}
 			s.disposables = append(s.disposables, d)
@@ -496,6 +496,20 @@ func (s *scope) storeOutput(descriptor *Descriptor, key instanceKey, value any) 
 	}
 
 	return s.setInstance(&Descriptor{Lifetime: Transient}, key, value)
+}
+
+// closeDisposable calls the instance's Close method. A panic in it is reported
+// as the error of that instance, like a panic in a constructor: the disposal
+// goes on with the remaining instances, and nobody who waits for it to finish
+// is left waiting.
+func closeDisposable(d Disposable) (err error) {
+	defer func() {
+		if r := recover(); r != nil {
+			err = fmt.Errorf("panic in Close of %T: %v", d, r)
+		}
+	}()
+
+	return d.Close()
 }
 
 // disposableOf returns the instance as a Disposable if there is something to
